@@ -3,6 +3,7 @@ package props
 import (
 	"encoding/json"
 	"fmt"
+	"github.com/truora/minidyn/interpreter"
 	"strings"
 	"testing"
 	"time"
@@ -88,8 +89,9 @@ func runC09(c c09Case, info *c09Info) *failure {
 	if perr != nil {
 		info.refRejects, info.reason = true, perr.Reason
 	}
+	lang := &interpreter.Language{}
 	if c.Warm != "" && len(c.Items) > 0 {
-		wc := exprCase{Expr: c.Warm, Item: model.CloneItem(c.Items[len(c.Items)-1]), Names: c.Names, Values: c.Values}
+		wc := exprCase{Expr: c.Warm, Item: model.CloneItem(c.Items[len(c.Items)-1]), Names: c.Names, Values: c.Values, lang: lang}
 		if c.Kind == "cond" {
 			implMatch(wc)
 		} else {
@@ -97,7 +99,7 @@ func runC09(c c09Case, info *c09Info) *failure {
 		}
 	}
 	for i, item := range c.Items {
-		ec := exprCase{Expr: c.Expr, Item: model.CloneItem(item), Names: c.Names, Values: c.Values}
+		ec := exprCase{Expr: c.Expr, Item: model.CloneItem(item), Names: c.Names, Values: c.Values, lang: lang}
 		before := model.CanonItem(item)
 		var got model.Outcome
 		var gotItem model.Item
@@ -266,17 +268,21 @@ var hostileConstants = []string{
 func drawC09(rt *rapid.T) (c09Case, string) {
 	kind := rapid.SampledFrom([]string{"cond", "cond", "update"}).Draw(rt, "kind")
 	c := c09Case{Kind: kind, Items: c09Items, Names: c09Names, Values: c09Values}
-	mode := rapid.SampledFrom([]string{"mutation", "mutation", "mutation", "valid", "fragments", "constant", "bytes", "dirty-twin", "repeat"}).Draw(rt, "mode")
+	mode := rapid.SampledFrom([]string{"mutation", "mutation", "mutation", "valid", "fragments", "constant", "bytes", "dirty-twin", "repeat", "case-twin"}).Draw(rt, "mode")
 	switch mode {
-	case "mutation", "valid", "dirty-twin", "repeat":
+	case "mutation", "valid", "dirty-twin", "repeat", "case-twin":
 		o := avOpts(2, false)
 		it := richItem(rt, o)
 		ctx := gen.NewExprCtx(it, o)
 		var text string
+		var condAST model.Expr
+		var updAST model.Update
 		if kind == "cond" {
-			text = model.Render(ctx.Cond(rt, rapid.IntRange(0, 3).Draw(rt, "depth")))
+			condAST = ctx.Cond(rt, rapid.IntRange(0, 3).Draw(rt, "depth"))
+			text = model.Render(condAST)
 		} else {
-			text = model.RenderUpdate(ctx.Update(rt, gen.UpdateCfg{MaxActions: 3}))
+			updAST = ctx.Update(rt, gen.UpdateCfg{MaxActions: 3})
+			text = model.RenderUpdate(updAST)
 		}
 		if mode == "mutation" {
 			n := rapid.IntRange(1, 2).Draw(rt, "nMut")
@@ -307,6 +313,22 @@ func drawC09(rt *rapid.T) (c09Case, string) {
 		}
 		c.Expr = text
 		c.Names, c.Values = ctx.Names, ctx.Values
+		if mode == "case-twin" {
+			// a valid expression after a twin that differs only in the letter
+			// case of one identifier, on the same interpreter instance
+			var tw string
+			var n2 map[string]string
+			var v2 map[string]model.AV
+			var ok bool
+			if kind == "cond" {
+				tw, n2, v2, ok = condCaseTwin(rt, condAST, ctx.Names, ctx.Values)
+			} else {
+				tw, n2, v2, ok = updateCaseTwin(rt, updAST, ctx.Names, ctx.Values)
+			}
+			if ok {
+				c.Warm, c.Names, c.Values = tw, n2, v2
+			}
+		}
 		c.Items = []model.Item{{}, it, richItem(rt, o)}
 	case "fragments":
 		parts := rapid.SliceOfN(rapid.SampledFrom(c09Fragments), 0, 14).Draw(rt, "frags")
@@ -327,7 +349,7 @@ func drawC09(rt *rapid.T) (c09Case, string) {
 	return c, mode
 }
 
-const ruleC09 = "rapid: expression strings for the condition and the update grammar - (a) one or two token-level mutations (drop, duplicate, replace, swap a token, append/prepend an operator, lower-case the keywords) of valid generated expressions, (b) random sequences of grammar fragments, (c) hostile constants (juxtaposed clauses, unbalanced and 2000-deep parentheses, 4096-byte inputs, wrong arities, bare literals, illegal bytes), (d) raw bytes, (e) a valid expression followed by a twin whose separator is an exotic white-space byte sequence, and malformed expressions evaluated repeatedly in one process; each evaluated with interpreter.Language.Match / Update against 3-4 items under a watchdog. Oracle: totality (no runtime panic, returns within the watchdog), strictness (a string rejected by the liberal reference recogniser must be rejected; a string it accepts is either rejected or evaluates to exactly the reference value / item on every item; a rejected update leaves the item unchanged), and for a sample the client API on both SDK clients (error or documented panic, never success, state unchanged). Non-trivial = string of >= 3 tokens that the reference recogniser rejects, or accepts while the implementation evaluates it; distinct = hash of (kind, string)."
+const ruleC09 = "rapid: expression strings for the condition and the update grammar - (a) one or two token-level mutations (drop, duplicate, replace, swap a token, append/prepend an operator, lower-case the keywords) of valid generated expressions, (b) random sequences of grammar fragments, (c) hostile constants (juxtaposed clauses, unbalanced and 2000-deep parentheses, 4096-byte inputs, wrong arities, bare literals, illegal bytes), (d) raw bytes, (e) a valid expression followed by a twin whose separator is an exotic white-space byte sequence, a valid expression preceded by a twin that differs in the letter case of one identifier, and malformed expressions evaluated repeatedly, always on one interpreter instance per case; each evaluated with interpreter.Language.Match / Update against 3-4 items under a watchdog. Oracle: totality (no runtime panic, returns within the watchdog), strictness (a string rejected by the liberal reference recogniser must be rejected; a string it accepts is either rejected or evaluates to exactly the reference value / item on every item; a rejected update leaves the item unchanged), and for a sample the client API on both SDK clients (error or documented panic, never success, state unchanged). Non-trivial = string of >= 3 tokens that the reference recogniser rejects, or accepts while the implementation evaluates it; distinct = hash of (kind, string)."
 
 // TestC09 decides property C09.
 func TestC09(t *testing.T) {
